@@ -38,6 +38,10 @@ def parseHook (s : String) : Option Hook :=
         match parseDigits? ds with
         | some n => if natDigits n == ds then .replace (.user n) else .keep
         | none => .keep
+      | 105 :: 0xe9 :: 100 :: ds =>      -- ids of the "B" PersistentRef hook
+        match parseDigits? ds with
+        | some n => if natDigits n == ds then .replace (.user n) else .keep
+        | none => .keep
       | _ => .keep
     | _ => .keep)
   else if s.front == 'F' || s.front == 'G' then     -- G: the hook returns a value TOGETHER with the error; still an error
@@ -235,6 +239,7 @@ def runDict (spec : String) : String :=
 def parseRefHook (s : String) : Option RefHook :=
   if s == "-" then some none
   else if s == "S" then some (some fun n => some (.str (sb s!"id{n}")))
+  else if s == "B" then some (some fun n => some (.str ([105, 0xe9, 100] ++ natDigits n)))
   else if s == "T" then some (some fun n => some (.tuple [.str (sb "cls"), .int n]))
   else if s == "N" then some (some fun n => some (.str (sb s!"id\n{n}")))
   else if s == "E" then some (some fun n => if n % 2 == 0 then some (.str (sb s!"id{n}")) else none)
